@@ -224,9 +224,21 @@ def decodeSOP1 (i : Inst) (row : Row) (w : Nat) : Dec4 :=
     else .done { i with src0 := some s0, dst := some d }
   | _, _ => .err
 
-def decodeSOPK (i : Inst) (w : Nat) : Dec4 :=
+/-- `decodeSOPK` before the repair: every SOPK opcode was a 4-byte instruction, also `s_setreg_imm32_b32` (opcode 20),
+    whose 32-bit SIMM32 follows the first dword (kept for `setreg_imm32_missized_before_fix`). -/
+def decodeSOPKOld (i : Inst) (w : Nat) : Dec4 :=
   match getOperand (extractBits w 16 22) with
   | some d => .done { i with simm16 := some (.int 0 (extractBits w 0 15)), dst := some d }
+  | none => .err
+
+/-- repaired: opcode 20 (`s_setreg_imm32_b32`) consumes the dword behind the first one and keeps it in `Src0` as a
+    literal constant -/
+def decodeSOPK (i : Inst) (w : Nat) : Dec4 :=
+  match getOperand (extractBits w 16 22) with
+  | some d =>
+    if i.opcode == 20 then
+      .more fun l => .ok { i with simm16 := some (.int 0 (extractBits w 0 15)), dst := some d, src0 := some (.lit 0 l) }
+    else .done { i with simm16 := some (.int 0 (extractBits w 0 15)), dst := some d }
   | none => .err
 
 def decodeSOPP (i : Inst) (w : Nat) : Dec4 :=
@@ -263,6 +275,12 @@ def sdwaSel (s : Nat) : Nat :=
 
 def isKOpcode (op : Nat) : Bool := op == 23 || op == 36 || op == 24 || op == 37
 
+/-- SRC0 of an SDWA encoding before the repair: the "SRC0 is an SGPR" flag was read from bit 30 of the SDWA dword
+    (the ISA has S0 at bit 23; kept for `sdwa_s0_misread_before_fix`) -/
+def sdwaSrc0Old (sd : Nat) : Opnd :=
+  if extractBits sd 30 30 != 0 then sreg (extractBits sd 0 7) (extractBits sd 0 7) 0
+  else vreg (extractBits sd 0 7) (extractBits sd 0 7) 0
+
 def decodeVOP2 (i : Inst) (w : Nat) : Dec4 :=
   let ob := extractBits w 0 8
   let b1 := extractBits w 9 16
@@ -282,7 +300,46 @@ def decodeVOP2 (i : Inst) (w : Nat) : Dec4 :=
       else
       let du := extractBits sd 11 12
       let s1 := if extractBits sd 31 31 != 0 then sreg b1 b1 0 else vreg b1 b1 0
-      let s0 := if extractBits sd 30 30 != 0 then sreg s0b s0b 0 else vreg s0b s0b 0
+      -- S0 is bit 23 of the SDWA dword (repaired: the decoder used to read bit 30, `sdwaSrc0Old`)
+      let s0 := if extractBits sd 23 23 != 0 then sreg s0b s0b 0 else vreg s0b s0b 0
+      if isKOpcode i.opcode then .err else
+      .ok { i with isSdwa := true, src0 := some s0, src1 := some s1, dst := some d,
+                   dstSel := sdwaSel (extractBits sd 8 10),
+                   dstUnused := (if du == 3 then 0 else du),
+                   src0Sel := sdwaSel (extractBits sd 16 18),
+                   src1Sel := sdwaSel (extractBits sd 24 26) }
+  else
+    match getOperand ob with
+    | none => .err
+    | some s0 =>
+      let s1 := vreg b1 b1 0
+      if isKOpcode i.opcode then
+        .more fun l => .ok { i with imm := true, src0 := some (setLit s0 l), src1 := some s1,
+                                    dst := some d, src2 := some (.lit 0 l) }
+      else if s0.isLit then
+        .more fun l => .ok { i with src0 := some (setLit s0 l), src1 := some s1, dst := some d }
+      else .done { i with src0 := some s0, src1 := some s1, dst := some d }
+
+/-- `decodeVOP2` before the repair of the S0 bit (kept for `sdwa_s0_misread_before_fix`) -/
+def decodeVOP2Old (i : Inst) (w : Nat) : Dec4 :=
+  let ob := extractBits w 0 8
+  let b1 := extractBits w 9 16
+  let bd := extractBits w 17 24
+  let d := vreg bd bd 0
+  if ob == 249 then
+    .more fun sd =>
+      -- panics for unsupported modifiers come first, in source order
+      if extractBits sd 13 13 == 1 then .notImpl
+      else if extractBits sd 19 19 == 1 then .notImpl
+      else if extractBits sd 20 20 == 1 then .notImpl
+      else if extractBits sd 21 21 == 1 then .notImpl
+      else if extractBits sd 27 27 == 1 then .notImpl
+      else if extractBits sd 28 28 == 1 then .notImpl
+      else if extractBits sd 29 29 == 1 then .notImpl
+      else
+      let du := extractBits sd 11 12
+      let s1 := if extractBits sd 31 31 != 0 then sreg b1 b1 0 else vreg b1 b1 0
+      let s0 := sdwaSrc0Old sd
       if isKOpcode i.opcode then .err else
       .ok { i with isSdwa := true, src0 := some s0, src1 := some s1, dst := some d,
                    dstSel := sdwaSel (extractBits sd 8 10),
@@ -483,6 +540,41 @@ def decodeWith (look : Nat → Nat → Option Row) (cdna3 : Bool) (buf : List Na
 
 def decode (cdna3 : Bool) (buf : List Nat) : Outcome := decodeWith (lookUpArch cdna3) cdna3 buf
 
+/-! ### The decoder before the two repairs of this round (`decodeSOPKOld`, `decodeVOP2Old`), kept so that the
+refutation of the full round trip for the code as it was stays a checked statement (`…_before_fix_refuted`). -/
+
+def dec4Old (i : Inst) (row : Row) (w : Nat) : Option Dec4 :=
+  if i.ft == FT_VOP2 then some (decodeVOP2Old i w)
+  else if i.ft == FT_SOPK then some (decodeSOPKOld i w)
+  else dec4 i row w
+
+def decodeRowOld (cdna3 : Bool) (f : Format) (row : Row) (w0 : Nat) (w1? : Option Nat) : Outcome :=
+  let i : Inst := { name := row.name, ft := f.ft, opcode := row.opcode }
+  if f.size == 8 then
+    match w1? with
+    | none => .err
+    | some w1 => ((dec8 cdna3 i row w0 w1).getD .notImpl).setSize 8
+  else
+    match dec4Old i row w0 with
+    | none => .notImpl
+    | some (.done i) => .ok { i with size := 4 }
+    | some .err => .err
+    | some (.more k) =>
+      match w1? with
+      | none => .err
+      | some w1 => (k w1).setSize 8
+
+def decodeOld (cdna3 : Bool) (buf : List Nat) : Outcome :=
+  if buf.length < 4 then .err
+  else
+    let w0 := le32 buf 0
+    match matchFormat w0 with
+    | none => .err
+    | some f =>
+      match lookUpArch cdna3 f.ft (extractBits w0 f.opLo f.opHi) with
+      | none => .err
+      | some row => decodeRowOld cdna3 f row w0 (if buf.length ≥ 8 then some (le32 buf 4) else none)
+
 /-! ## Spec-side encoder and expected instruction
 
 Field packing as in the ISA manuals ("Microcode formats": SOP2, SOPK, SOP1, SOPC, SOPP, VOP2, VOP1,
@@ -652,7 +744,8 @@ def instOfRow (d : Desc) (row : Row) : Inst :=
                src1 := some (cnt (withLit d.lit (opndOf d.ssrc1))),
                dst := some (cnt (opndOf d.sdst)) }
     else if d.ft == FT_SOPK then
-      { i with simm16 := some (.int 0 d.simm16), dst := some (opndOf d.sdst) }
+      { i with simm16 := some (.int 0 d.simm16), dst := some (opndOf d.sdst),
+               src0 := (if d.op == 20 then some (.lit 0 (d.lit.getD 0)) else none) }
     else if d.ft == FT_SOP1 then
       { i with src0 := some (withLit d.lit (with64 row.src0W (opndOf d.ssrc0))),
                dst := some (with64 row.dstW (opndOf d.sdst)) }
@@ -756,10 +849,10 @@ def instOf (c : Bool) (d : Desc) : Inst :=
   | none => default
   | some row => instOfRowArch c d row
 
-/-- the two classes of well-formed descriptions on which the decoder departs from the ISA's packing (kept out of
-    `decode_encode`, refuting `decode_encode_full`): `s_setreg_imm32_b32` (SOPK 20) is followed by a 32-bit SIMM32
-    that the decoder does not consume (size 4), and the SDWA dword's S0 flag is bit 23, where the decoder reads bit 30 -/
-def deviates (d : Desc) : Bool :=
+/-- the two classes of well-formed descriptions on which the decoder departed from the ISA's packing before the two
+    repairs: `s_setreg_imm32_b32` (SOPK 20) is followed by a 32-bit SIMM32 that the decoder did not consume (size 4),
+    and the SDWA dword's S0 flag is bit 23, where the decoder read bit 30. No theorem excludes them any more. -/
+def deviatesOld (d : Desc) : Bool :=
   (d.ft == FT_SOPK && d.op == 20) || (d.ft == FT_VOP2 && d.sdwa == 1 && d.s0 == 1)
 
 /-! ## Converse direction: canonical form of the bytes `Decode` reads, description read back from an instruction
@@ -776,12 +869,12 @@ def usesSecond4 (ft : Nat) (row : Row) (w0 : Nat) : Bool :=
   else if ft == FT_SOP1 then extractBits w0 0 7 == 255
   else if ft == FT_VOP1 || ft == FT_VOPC then extractBits w0 0 8 == 255
   else if ft == FT_VOP2 then extractBits w0 0 8 == 249 || extractBits w0 0 8 == 255 || isKOpcode row.opcode
+  else if ft == FT_SOPK then row.opcode == 20
   else false
 
-/-- SDWA dword: OMOD (14..15), the reserved bit 22 and bit 23 (the ISA's S0 — the decoder reads bit 30 instead) are not
-    read; DST_UNUSED 3 is decoded like 0 -/
+/-- SDWA dword: OMOD (14..15) and the reserved bits 22 and 30 are not read; DST_UNUSED 3 is decoded like 0 -/
 def normSdwa (sd : Nat) : Nat :=
-  let a := clr (clr sd 14 15) 22 23
+  let a := clr (clr (clr sd 14 15) 22 22) 30 30
   if extractBits sd 11 12 == 3 then clr a 11 12 else a
 
 def normRow (c : Bool) (ft : Nat) (row : Row) (w0 : Nat) (w1? : Option Nat) : Nat × Option Nat :=
@@ -868,14 +961,14 @@ def descOf (c : Bool) (i : Inst) : Desc :=
   let d : Desc := { ft := i.ft, op := i.opcode }
   if i.ft == FT_SOP2 then
     { d with ssrc0 := ocode i.src0, ssrc1 := ocode i.src1, sdst := ocode i.dst, lit := orr (olit i.src0) (olit i.src1) }
-  else if i.ft == FT_SOPK then { d with sdst := ocode i.dst, simm16 := (oint i.simm16).toNat }
+  else if i.ft == FT_SOPK then { d with sdst := ocode i.dst, simm16 := (oint i.simm16).toNat, lit := olit i.src0 }
   else if i.ft == FT_SOP1 then { d with ssrc0 := ocode i.src0, sdst := ocode i.dst, lit := olit i.src0 }
   else if i.ft == FT_SOPC then
     { d with ssrc0 := ocode i.src0, ssrc1 := ocode i.src1, lit := orr (olit i.src0) (olit i.src1) }
   else if i.ft == FT_SOPP then { d with simm16 := (oint i.simm16).toNat }
   else if i.ft == FT_VOP2 then
     if i.isSdwa then
-      { d with sdwa := 1, src0 := ocode i.src0, vsrc1 := ocode i.src1, vdst := ocode i.dst, s0 := 0, s1 := oIsSreg i.src1,
+      { d with sdwa := 1, src0 := ocode i.src0, vsrc1 := ocode i.src1, vdst := ocode i.dst, s0 := oIsSreg i.src0, s1 := oIsSreg i.src1,
                dstSel := selInv i.dstSel, dstUnused := i.dstUnused, src0Sel := selInv i.src0Sel,
                src1Sel := selInv i.src1Sel }
     else
@@ -916,12 +1009,6 @@ def normCore (c : Bool) (w0 : Nat) (w1? : Option Nat) : Nat × Option Nat :=
     match lookUpArch c f.ft (extractBits w0 f.opLo f.opHi) with
     | none => (w0, w1?)
     | some row => if ft13.contains f.ft then normRow c f.ft row w0 w1? else (w0, w1?)
-
-/-- an SDWA dword with bit 30 set: the decoder reads the SRC0-is-SGPR flag there; the ISA has it at bit 23 -/
-def sdwa30 (w0 : Nat) (w1? : Option Nat) : Bool :=
-  match matchFormat w0, w1? with
-  | some f, some w1 => f.ft == FT_VOP2 && extractBits w0 0 8 == 249 && extractBits w1 30 30 != 0
-  | _, _ => false
 
 /-- the two dwords `Decode` looks at (the second one only when the buffer has 8 bytes) -/
 def wordsOf (b : List Nat) : Nat × Option Nat := (le32 b 0, if b.length ≥ 8 then some (le32 b 4) else none)
@@ -1024,12 +1111,12 @@ def handle (line : String) : String :=
   | "c04" :: "inst" :: fmt :: toks =>
     match parseDesc fmt toks with
     | some d =>
-      if wellFormed d then (if deviates d then "deviates" else "ok " ++ (instOf false d).str) else "illformed"
+      if wellFormed d then "ok " ++ (instOf false d).str else "illformed"
     | none => "bad"
   | "c04" :: "inst3" :: fmt :: toks =>   -- the same on a CDNA3 disassembler
     match parseDesc fmt toks with
     | some d =>
-      if wellFormed d then (if deviates d then "deviates" else "ok " ++ (instOf true d).str) else "illformed"
+      if wellFormed d then "ok " ++ (instOf true d).str else "illformed"
     | none => "bad"
   | ["c04", "norm", arch, hex] =>      -- canonical form of the bytes (ignored bits cleared, unused bytes dropped)
     match hexBytes? hex with
